@@ -688,9 +688,10 @@ class NewRecipeSpecStore(Store):
         m = Metadata(metadata)
         if is_error:
             m.exception(f"Error evaluating recipe", traceback=trace)
-        else:
-            if m.status == Status.NONE.value:
-                m.status = Status.READY.value
+        elif m.get("is_error"):
+            m.status = Status.ERROR.value
+        elif m.status == Status.NONE.value:
+            m.status = Status.READY.value
         m.add_recipe_dependency(recipe)
         metadata = m.as_dict()
         self.substore.store_metadata(key, metadata)
